@@ -456,6 +456,12 @@ func ruleR1(w *world.World, r *report.RuleResult) {
 					}
 					continue
 				}
+				// `if len(x) > 0 { res += "\r\n" }` where x is non-empty by the command's arity: the
+				// unterminated alternative is infeasible
+				if c2, ok := suffixIgnoringInfeasibleEmpty(fn, rv[0]); ok && (c2 == sfxCRLF) {
+					r.OK(key, pos, "the only unterminated alternative is guarded by an emptiness test of a collection that is non-empty on every path (length fixed by the command's arity)")
+					continue
+				}
 				r.Fail(key, pos, fmt.Sprintf("the reply returned here may not end in CRLF (suffix classes: %s): an unterminated RESP frame", clsStr(c)))
 			}
 		}
@@ -469,6 +475,51 @@ func isSubscribeFamily(fn *ssa.Function) bool {
 // provablyNonEmpty: the collection's length derives from the command arity (e.g. params.Command[2:])
 // with a positive lower bound. Conservative: only slices of the command with constant bounds whose
 // minimum length is >= 1 according to the arity analysis are accepted; otherwise false.
+// suffixIgnoringInfeasibleEmpty: v is (a conversion of) a phi; the edge coming straight from a block
+// that tests len(x) > 0 / != 0 / >= 1 over its "empty" side is dropped when x is provably non-empty.
+func suffixIgnoringInfeasibleEmpty(fn *ssa.Function, v ssa.Value) (int, bool) {
+	for {
+		switch x := v.(type) {
+		case *ssa.Convert:
+			v = x.X
+			continue
+		case *ssa.ChangeType:
+			v = x.X
+			continue
+		}
+		break
+	}
+	ph, ok := v.(*ssa.Phi)
+	if !ok {
+		return 0, false
+	}
+	b := ph.Block()
+	res, dropped := 0, false
+	for i, e := range ph.Edges {
+		p := b.Preds[i]
+		if iff := world.IfOf(p); iff != nil {
+			if bo, ok := iff.Cond.(*ssa.BinOp); ok {
+				if coll, ok := lenArgOf(bo.X); ok {
+					k, isK := world.ConstInt(bo.Y)
+					emptySucc := -1
+					switch {
+					case isK && k == 0 && bo.Op == token.GTR, isK && k == 0 && bo.Op == token.NEQ, isK && k == 1 && bo.Op == token.GEQ:
+						emptySucc = 1
+					case isK && k == 0 && bo.Op == token.EQL, isK && k == 0 && bo.Op == token.LEQ, isK && k == 1 && bo.Op == token.LSS:
+						emptySucc = 0
+					}
+					if emptySucc >= 0 && p.Succs[emptySucc] == b && provablyNonEmpty(fn, coll) {
+						dropped = true
+						continue
+					}
+				}
+			}
+		}
+		res |= newSfx().eval(e)
+	}
+	return res, dropped
+}
+
 func provablyNonEmpty(fn *ssa.Function, coll ssa.Value) bool {
 	// a slice x[a:] of the command where the key function requires len > a
 	ps := prov(coll, 0, map[ssa.Value]bool{})
